@@ -35,6 +35,8 @@ fn walk_cell(prop: &str, c: &Case, i: usize, plain: &ConvexCell<WithoutFaces>, c
     rep.count("cells_walked", 1);
     rep.count("vertices_walked", nv as u64);
     rep.count("faces_walked", nf as u64);
+    rep.max("c15.max_faces_of_one_cell", nf as f64);
+    rep.max("c15.max_vertices_of_one_cell", nv as f64);
     let mk = |mon: &str, what: String, extra: serde_json::Value| Violation::new(prop, mon, format!("cell {i}: {what}"), Some(c), json!({"cell": i, "extra": extra}));
     // map faces to clipping plane indices (the accessor returns a reference into the plane vector)
     let mut plane_of_face = vec![usize::MAX; nf];
@@ -327,6 +329,7 @@ pub fn c15(a: &Args, rep: &mut Report) {
         with_random_mask("C15mask", a, k, &mut c, 3);
         one_c15("C15", &c, rep);
     });
+    giant_cells(a, rep, "C15", &[3000, 12000], &[3000, 12000, 12000, 25000, 40000, 70000], |c, rep| one_c15("C15", c, rep));
 }
 
 // ------------------------------------------------------------------------------------------------
